@@ -7,6 +7,7 @@ import subprocess
 ROOT = os.path.dirname(os.path.dirname(os.path.abspath(__file__)))
 
 TECH = {
+    "C07": ("contracts on every non-signature OP_CODE_FUNCTIONS entry and on encode_num/decode_num vs a port of EvalScript; whole-program differential on Script.evaluate; timelock grid", "2 C07"),
     "C06": ("boundary monitor on Tx.verify_input: library-signed positives for 12 spend types, mutation catalogue classified by a reference authorisation analyser (negatives carry an unauthorised-by-construction proof); contracts on the signature opcodes", "2 C06"),
     "C05": ("contracts on Tx.sig_hash_legacy/_bip143/_bip341/sig_hash that snapshot the object at call time and recompute the digest with a memo-free reference; query/edit history workload; fresh-object comparison", "2 C05"),
     "C04": ("contracts on Tx/Script/Witness/varint codecs vs reference wire codec; byte and field round trips; txid edit monitors; fetcher history monitor against a stubbed hostile server with cache invariant", "2 C04"),
